@@ -924,7 +924,7 @@ class Host(utils.EventEmitter):
 
         bytes_remaining = len(sdu)
         offset = 0
-        while bytes_remaining:
+        while True:  # At least one packet, even for an empty SDU
             is_first_fragment = offset == 0
             header_length = 4 if is_first_fragment else 0
             assert iso_link.packet_queue.max_packet_size > header_length
@@ -957,6 +957,8 @@ class Host(utils.EventEmitter):
 
             offset += fragment_length
             bytes_remaining -= fragment_length
+            if not bytes_remaining:
+                break
 
         iso_link.packet_sequence_number = (iso_link.packet_sequence_number + 1) & 0xFFFF
 
